@@ -8,13 +8,21 @@ package main
 
 import (
 	"go/token"
+	"go/types"
 
 	"golang.org/x/tools/go/ssa"
 )
 
+// fieldCell names field idx of the local struct variable base (an Alloc).
+type fieldCell struct {
+	base ssa.Value
+	idx  int
+}
+
 type xState struct {
 	phi   map[*ssa.Phi]ssa.Value  // value each phi currently stands for on this path (a non-phi SSA value)
 	cell  map[ssa.Value]ssa.Value // last value stored into a local cell (Alloc) on this path
+	fcell map[fieldCell]ssa.Value // last value stored into a field of a local struct variable on this path
 	inst  map[ssa.Value]int       // number of the latest execution of an instance-creating instruction
 	next  int
 	user  map[string]int // rule state (small integers / flags), copied on branching
@@ -22,7 +30,10 @@ type xState struct {
 }
 
 func (s *xState) clone() *xState {
-	n := &xState{phi: map[*ssa.Phi]ssa.Value{}, cell: map[ssa.Value]ssa.Value{}, inst: map[ssa.Value]int{}, next: s.next, user: map[string]int{}}
+	n := &xState{phi: map[*ssa.Phi]ssa.Value{}, cell: map[ssa.Value]ssa.Value{}, fcell: map[fieldCell]ssa.Value{}, inst: map[ssa.Value]int{}, next: s.next, user: map[string]int{}}
+	for k, v := range s.fcell {
+		n.fcell[k] = v
+	}
 	for k, v := range s.phi {
 		n.phi[k] = v
 	}
@@ -55,6 +66,21 @@ func (s *xState) resolve(v ssa.Value) ssa.Value {
 				if cv, ok := s.cell[peelCell(x.X)]; ok {
 					v = cv
 					continue
+				}
+				// a field of a local struct variable: the last store on this path, or the zero value (nil for pointers)
+				// of a variable that was declared without initialiser and whose address did not go anywhere else
+				if fa, ok := x.X.(*ssa.FieldAddr); ok {
+					if al, ok := peelCell(fa.X).(*ssa.Alloc); ok {
+						if cv, ok := s.fcell[fieldCell{al, fa.Field}]; ok {
+							v = cv
+							continue
+						}
+						if zeroInitLocalStruct(al) {
+							if _, isPtr := x.Type().Underlying().(*types.Pointer); isPtr {
+								return ssa.NewConst(nil, x.Type())
+							}
+						}
+					}
 				}
 			}
 		case *ssa.ChangeType:
@@ -133,6 +159,11 @@ func (fc *flowCtx) explore(fn *ssa.Function, h xHooks, maxVisits, maxSteps int) 
 						st.cell[peelCell(x.Addr)] = st.resolve(x.Val)
 					}
 				}
+				if fa, isFA := x.Addr.(*ssa.FieldAddr); isFA {
+					if al, ok := peelCell(fa.X).(*ssa.Alloc); ok {
+						st.fcell[fieldCell{al, fa.Field}] = st.resolve(x.Val)
+					}
+				}
 			case *ssa.If:
 				r := -1
 				if h.cond != nil {
@@ -170,7 +201,7 @@ func (fc *flowCtx) explore(fn *ssa.Function, h xHooks, maxVisits, maxSteps int) 
 			}
 		}
 	}
-	st := &xState{phi: map[*ssa.Phi]ssa.Value{}, cell: map[ssa.Value]ssa.Value{}, inst: map[ssa.Value]int{}, user: map[string]int{}}
+	st := &xState{phi: map[*ssa.Phi]ssa.Value{}, cell: map[ssa.Value]ssa.Value{}, fcell: map[fieldCell]ssa.Value{}, inst: map[ssa.Value]int{}, user: map[string]int{}}
 	run(fn.Blocks[0], nil, st, map[*ssa.BasicBlock]int{})
 	return ok
 }
@@ -237,4 +268,18 @@ func (st *xState) trailStrings(w *World) []string {
 		out = append(out[:12], append([]string{"…"}, out[len(out)-11:]...)...)
 	}
 	return out
+}
+
+// zeroInitLocalStruct: al is a local struct variable that starts out zeroed (`var x T`): no whole-struct store ever
+// initialises it (only field stores, field loads, and uses of its address as a call argument / method receiver).
+func zeroInitLocalStruct(al *ssa.Alloc) bool {
+	if _, ok := al.Type().Underlying().(*types.Pointer).Elem().Underlying().(*types.Struct); !ok {
+		return false
+	}
+	for _, r := range referrers(al) {
+		if st, ok := r.(*ssa.Store); ok && st.Addr == ssa.Value(al) {
+			return false
+		}
+	}
+	return true
 }
